@@ -56,6 +56,7 @@ type World struct {
 	stableFams map[string]*stableDecl
 	cg *callgraph.Graph
 	paramFresh map[*ssa.Function]bool
+	curUnitPkg *PkgInfo
 }
 
 type contractErr struct{ file, msg, raw string }
@@ -252,6 +253,13 @@ func (w *World) contractFor(f *ssa.Function) *Contract {
 		full := f.String()
 		if o := f.Origin(); o != nil && o != f {
 			full = o.String()
+		}
+		// a library contract in the contract file of the unit under verification wins over the same key
+		// in another package's file (first in package-path order otherwise)
+		if w.curUnitPkg != nil && w.curUnitPkg.cf != nil {
+			if c, ok := w.curUnitPkg.cf.Contracts[full]; ok {
+				return c
+			}
 		}
 		if c, ok := w.extContracts()[full]; ok {
 			return c
